@@ -131,6 +131,8 @@ class Engine(object):
         self.yield_hook = None       # set by the coroutine layer (rely.py)
         self.feas_checks = 0
         self.spec_pol = 0
+        self._awaiting = False
+        self._yield_counter = 0
 
     # ------------------------------------------------------------------ utilities
     def oos(self, msg, node=None):
@@ -767,6 +769,8 @@ class Engine(object):
             if name in mi.defs:
                 d = mi.defs[name]
                 kind = 'class' if isinstance(d, ast.ClassDef) else 'func'
+                if kind == 'class' and (name in self.spec.exc_parent):
+                    return mk_py(('excclass', name))
                 return mk_py((kind, '%s:%s' % (mi.name, name)))
             if name in mi.imports:
                 imp = mi.imports[name]
